@@ -25,7 +25,7 @@ m = {
     "setup_cmd": "cd /verif/engine && GOFLAGS=-mod=mod GOPROXY=off GOSUMDB=off GOTOOLCHAIN=local go build -o ../bin/gosym . && cd /verif && ./check selftest",
     "hooks": {
         "guard": "verif",
-        "enable": "harness files tagged //go:build verif are injected at load time with packages.Config.Overlay / go test -overlay and built with -tags verif; nothing is committed in /repo for hooks",
+        "enable": "harness files tagged //go:build verif are injected at load time with packages.Config.Overlay / go test -overlay and built with -tags verif; native replays of schedules (C13) additionally use a copy of package service generated from the current tree with a vrtGate call before every channel, socket, go and sleep operation (engine/instrument.go), again through -overlay only; nothing is committed in /repo for hooks",
         "baseline_off_cmd": "for m in shared protocol service attachment terminal; do (cd /repo/$m && go test -mod=mod -vet=off -count=1 ./...); done",
         "source_commits": [],
         "add_only": True,
